@@ -753,6 +753,95 @@ pub fn family_cluster() -> Vec<PProblem> {
     out
 }
 
+/// Clustering x job attributes: jobs which end up in one cluster keep their own skills / group / compatibility needs
+/// (the cluster is served by one vehicle: it has to satisfy every member).
+pub fn family_cluster_attr() -> Vec<PProblem> {
+    use TaskKind::*;
+    let mut out = vec![];
+    let sk = |all: &[&str], one: &[&str], none: &[&str]| {
+        Some(PSkills { all_of: all.iter().map(|s| s.to_string()).collect(), one_of: one.iter().map(|s| s.to_string()).collect(), none_of: none.iter().map(|s| s.to_string()).collect() })
+    };
+    // (skills of c1, skills of c2): both directions of every inclusion
+    let pairs: Vec<(Option<PSkills>, Option<PSkills>)> = vec![
+        (sk(&[], &["a", "b"], &[]), sk(&[], &["a"], &[])),
+        (sk(&[], &["a"], &[]), sk(&[], &["a", "b"], &[])),
+        (sk(&["a"], &[], &[]), sk(&["a", "b"], &[], &[])),
+        (sk(&["a", "b"], &[], &[]), sk(&["a"], &[], &[])),
+        (sk(&[], &[], &["a"]), sk(&[], &[], &["a", "b"])),
+        (sk(&[], &[], &["a", "b"]), sk(&[], &[], &["a"])),
+        (None, sk(&[], &["a"], &[])),
+        (sk(&[], &["b"], &[]), None),
+        (sk(&["a"], &[], &[]), sk(&[], &[], &["a"])),
+    ];
+    let fleets: Vec<Vec<Vec<&str>>> = vec![vec![vec!["b"], vec!["a"]], vec![vec!["a", "b"], vec![]], vec![vec!["b"]], vec![vec!["a"], vec!["b"], vec![]]];
+    for (pi, (s1, s2)) in pairs.iter().enumerate() {
+        for (fi, fleet) in fleets.iter().enumerate() {
+            for visiting in ["continue", "return"] {
+                let mut jobs = vec![
+                    job("c1", vec![task(Delivery, vec![place(1, 3., &[], None)], &[1])]),
+                    job("c2", vec![task(Delivery, vec![place(1, 2., &[], None)], &[1])]),
+                    job("c3", vec![task(Delivery, vec![place(2, 2., &[], None)], &[1])]),
+                ];
+                jobs[0].skills = s1.clone();
+                jobs[1].skills = s2.clone();
+                let vehicles = fleet
+                    .iter()
+                    .enumerate()
+                    .map(|(i, skills)| {
+                        let mut v = vehicle_type(&format!("v{i}"), 1, &[4], vec![shift(ShiftKind::Closed)]);
+                        v.skills = skills.iter().map(|s| s.to_string()).collect();
+                        v
+                    })
+                    .collect();
+                let mut p = base(format!("cluster/attr/skills/p{pi}/f{fi}/{visiting}"), jobs, vehicles);
+                p.clustering = Some(json!({
+                    "type": "vicinity", "profile": {"matrix": "car"}, "threshold": {"duration": 30.0, "distance": 60.0},
+                    "visiting": visiting, "serving": {"type": "original", "parking": 2.0},
+                }));
+                out.push(p.fit_matrices());
+            }
+        }
+    }
+    // groups and compatibility
+    for variant in 0..4 {
+        for cap in [4i64, 2] {
+            let mut jobs = vec![
+                job("c1", vec![task(Delivery, vec![place(1, 3., &[], None)], &[1])]),
+                job("c2", vec![task(Delivery, vec![place(1, 2., &[], None)], &[1])]),
+                job("c3", vec![task(Delivery, vec![place(2, 2., &[], None)], &[1])]),
+                job("c4", vec![task(Pickup, vec![place(2, 1., &[], None)], &[1])]),
+            ];
+            match variant {
+                0 => {
+                    jobs[0].group = Some("g1".into());
+                    jobs[2].group = Some("g1".into());
+                }
+                1 => {
+                    jobs[0].group = Some("g1".into());
+                    jobs[1].group = Some("g2".into());
+                    jobs[3].group = Some("g1".into());
+                }
+                2 => {
+                    jobs[0].compatibility = Some("food".into());
+                    jobs[1].compatibility = Some("chem".into());
+                }
+                _ => {
+                    jobs[0].compatibility = Some("food".into());
+                    jobs[2].compatibility = Some("chem".into());
+                    jobs[3].compatibility = Some("food".into());
+                }
+            }
+            let mut p = base(format!("cluster/attr/gc/v{variant}/c{cap}"), jobs, vec![vehicle_type("v", 3, &[cap], vec![shift(ShiftKind::Closed)])]);
+            p.clustering = Some(json!({
+                "type": "vicinity", "profile": {"matrix": "car"}, "threshold": {"duration": 30.0, "distance": 60.0},
+                "visiting": "continue", "serving": {"type": "original", "parking": 2.0},
+            }));
+            out.push(p.fit_matrices());
+        }
+    }
+    out
+}
+
 /// F-timedep: time-dependent routing: two matrices of one profile (in effect from 0 s / from 5 s on) whose distances and
 /// travel times differ; the departure is fixed (start.latest == start.earliest) so that only the first leg uses the first one.
 pub fn family_timedep() -> Vec<PProblem> {
@@ -860,6 +949,35 @@ pub fn family_mixed10() -> Vec<PProblem> {
     out
 }
 
+/// F-waits: the vehicle waits at an early stop with a narrow window and again (longer) at a later stop: whatever
+/// reschedules the departure afterwards (departure advance, limits) may not push the early stop out of its window.
+pub fn family_waits(_tier: Tier) -> Vec<PProblem> {
+    use TaskKind::*;
+    let mut out = vec![];
+    for (a_start, a_len) in [(30., 0.), (30., 5.), (50., 5.), (50., 20.)] {
+        for (b_start, b_len) in [(120., 10.), (200., 100.)] {
+            for third in 0..3 {
+                for (kind, latest) in [(ShiftKind::Closed, None), (ShiftKind::Open, None), (ShiftKind::Closed, Some(10.))] {
+                    let mut jobs = vec![
+                        job("early", vec![task(Delivery, vec![place(1, 1., &[(a_start, a_start + a_len)], None)], &[1])]),
+                        job("late", vec![task(Delivery, vec![place(3, 1., &[(b_start, b_start + b_len)], None)], &[1])]),
+                    ];
+                    match third {
+                        1 => jobs.push(job("free", vec![task(Pickup, vec![place(2, 2., &[], None)], &[1])])),
+                        2 => jobs.push(job("mid", vec![task(Service, vec![place(2, 2., &[(a_start + 30., b_start)], None)], &[])])),
+                        _ => {}
+                    }
+                    let mut s = shift(kind);
+                    s.start_latest = latest;
+                    let v = vehicle_type("v", 1, &[5], vec![s]);
+                    out.push(base(format!("waits/a{a_start}+{a_len}/b{b_start}+{b_len}/t{third}/{kind:?}/{latest:?}"), jobs, vec![v]));
+                }
+            }
+        }
+    }
+    out
+}
+
 pub fn all_families(tier: Tier) -> Vec<(&'static str, Vec<PProblem>)> {
     raw_families(tier).into_iter().map(|(n, ps)| (n, ps.into_iter().map(|p| p.fit_matrices()).collect())).collect()
 }
@@ -879,5 +997,6 @@ fn raw_families(tier: Tier) -> Vec<(&'static str, Vec<PProblem>)> {
         ("shape", family_shape(tier)),
         ("places", family_places(tier)),
         ("fleet4", family_fleet4(tier)),
+        ("waits", family_waits(tier)),
     ]
 }
